@@ -62,7 +62,8 @@ package cache
 //@   ensures[C19] result == nil && -1000 <= old(a.Weight) && old(a.Weight) <= 1000 ==> a.Weight == old(a.Weight)
 
 // Every affinity parsed from an annotation is validated (hence clamped) before it is stored.
-//@ func (*podContainerAffinity).parseFull tags=C19
+//@ func (*podContainerAffinity).parseFull tags=C19 safety=C14
+//@   requires pca != nil && *pca != nil && pod != nil
 //@ assert[C19] in (*podContainerAffinity).parseFull at "ca = append(ca, a)": -1000 <= a.Weight && a.Weight <= 1000
 
 // ---- C20: resource requirements reconstructed from cgroup parameters --------------------------------
